@@ -10,7 +10,26 @@ pub struct C04;
 pub const REPO_LEF_DIRS: &[&str] = &["/repo/lef21/resources", "/repo/layout21converters/resources"];
 
 /// Read LEF text through the only public entry point (a file)
+/// Texts the reader rejects (or accepts) for different reasons, read on the same thread right BEFORE a judged read: nothing of them -
+/// a version in effect, a half-filled buffer, an error state - may leak into the next call.
+const DISTURBANCES: &[&str] = &[
+    "VERSION 5.4 ;\nMACRO a\n  SIZE 1 BY 2 ;\nEND a\n",                       // pre-5.6 without END LIBRARY: rejected at end of input
+    "VERSION 5.3 ;\nNAMESCASESENSITIVE ON ;\nMACRO x\n  SIZE 1 BY ;\n",        // syntax error inside a macro
+    "VERSION 5.5 ;\nNOWIREEXTENSIONATPIN ON ;\nEND LIBRARY\nMACRO late\n",     // text after END LIBRARY
+    "MACRO \"unterminated\n",                                                  // lexer error
+    "VERSION 5.8 ;\nBEGINEXT \"t\" never closed",                               // runs into end of input inside an extension
+    "VERSION 5.4 ;\nUNITS\n  DATABASE MICRONS 1000 ;\nEND UNITS\nEND LIBRARY\n", // a valid old-version library
+    "\u{feff}VERSION 5.8 ;",                                                    // byte-order mark
+];
 pub fn open_text(cx: &Cx, text: &str) -> Result<Result<LefLibrary, lef21::LefError>, Caught> {
+    let h = crate::rt::prng::strhash(text);
+    if h % 3 == 0 {
+        let p = cx.tmp("disturb.lef");
+        if std::fs::write(&p, DISTURBANCES[(h / 3) as usize % DISTURBANCES.len()]).is_ok() {
+            let _ = guard(|| LefLibrary::open(&p));
+            let _ = std::fs::remove_file(&p);
+        }
+    }
     let path = cx.tmp("in.lef");
     std::fs::write(&path, text).expect("tmpfs write");
     let r = guard(|| LefLibrary::open(&path));
@@ -75,36 +94,57 @@ impl Prop for C04 {
         ]
     }
     fn plan(&self, tier: Tier) -> Vec<GenSpec> {
-        vec![GenSpec::random("rendered", tier.pick(25_000, 300_000)), GenSpec::enumerated("repo-files", 1)]
+        vec![
+            GenSpec::random("rendered", tier.pick(25_000, 300_000)),
+            GenSpec::enumerated("repo-files", 1),
+            // libraries of 50..400 KB with non-ASCII text in comments and string literals all over: every multi-byte character position
+            // relative to any block size a chunked file reader may use
+            GenSpec::random("big-files", tier.pick(40, 1_200)),
+        ]
     }
     fn run_case(&self, cx: &mut Cx) {
         match cx.gen.as_str() {
-            "rendered" => {
-                let cfg = LefCfg::default();
+            "rendered" | "big-files" => {
+                let big = cx.gen == "big-files";
+                let cfg = if big { LefCfg { max_macros: 40 + cx.rng.usize(200), max_pins: 3, hostile_strings: true, ..Default::default() } } else { LefCfg::default() };
                 let g = rand_lef(&mut cx.rng, &cfg);
                 cx.nontrivial(feature_bits(&g.lib) | 1 << 60);
-                let forms = cx.tier.pick(4, 32);
+                let forms = if big { 1 } else { cx.tier.pick(4, 32) };
                 for k in 0..forms {
-                    let style = if k == 0 { Style::plain() } else { Style::random(&mut cx.rng) };
+                    let style = if big {
+                        let mut st = Style::random(&mut cx.rng);
+                        st.comments = true;
+                        st.nonascii_comments = true;
+                        st
+                    } else if k == 0 {
+                        Style::plain()
+                    } else {
+                        Style::random(&mut cx.rng)
+                    };
                     let (text, _) = render(&g, &cfg, &mut cx.rng, style.clone());
+                    if big {
+                        cx.max("max.big_file_bytes", text.len() as u64);
+                    }
+                    // (witnesses of big files are clipped)
+                    let text = text;
                     cx.eval();
                     cx.nontrivial(crate::rt::prng::strhash(&text));
                     let na = if text.is_ascii() { "ascii" } else { "nonascii" };
                     cx.count(&format!("texts_{}", na));
                     match open_text(cx, &text) {
-                        Err(c) => cx.violation(&format!("{}|read-panic|{}|{}", na, c.site(), c.norm_msg()), json!({"panic": c.msg, "at": format!("{}:{}", c.file, c.line), "text": text})),
-                        Ok(Err(e)) => cx.violation(&format!("{}|read-error|{}", na, lef_err_class(&e)), json!({"error": format!("{:?}", e).chars().take(400).collect::<String>(), "text": text})),
+                        Err(c) => cx.violation(&format!("{}|read-panic|{}|{}", na, c.site(), c.norm_msg()), json!({"panic": c.msg, "at": format!("{}:{}", c.file, c.line), "text": text.chars().take(4000).collect::<String>()})),
+                        Ok(Err(e)) => cx.violation(&format!("{}|read-error|{}", na, lef_err_class(&e)), json!({"error": format!("{:?}", e).chars().take(400).collect::<String>(), "bytes": text.len(), "text": text.chars().take(4000).collect::<String>()})),
                         Ok(Ok(got)) => {
                             if got != g.lib {
                                 let (class, path) = lef_diff(&g.lib, &got);
-                                cx.violation(&format!("{}|mismatch|{}", na, class), json!({"at": path, "text": text}));
+                                cx.violation(&format!("{}|mismatch|{}", na, class), json!({"at": path, "bytes": text.len(), "text": text.chars().take(4000).collect::<String>()}));
                             } else {
                                 cx.count("read_exact");
                             }
                         }
                     }
                     if k == 0 {
-                        cx.sample(|| json!({"text": text}));
+                        cx.sample(|| json!({"text": text.chars().take(3000).collect::<String>(), "bytes": text.len()}));
                     }
                 }
             }
